@@ -237,7 +237,7 @@ func (l *learner) Failed(timedOut bool) (time.Duration, time.Duration, initialsi
 		l.a.calls = append(l.a.calls, c)
 		return 0, 0, nil
 	}
-	if !l.rec.largest && l.rec.kind == "fg" && t.Bool(3, 4) {
+	if !l.rec.largest && l.rec.kind == "fg" && (l.a.w.fair || t.Bool(3, 4)) {
 		c.retry = true
 		l.a.retryEvents[l.rec.action.hash]++
 		l.a.calls = append(l.a.calls, c)
